@@ -52,6 +52,17 @@ class MySet(set):
     pass
 
 
+class _CountingMeta(type):
+    """a registry-style metaclass: the class is falsy while nothing is registered"""
+
+    def __len__(cls):
+        return 0
+
+
+class Registry(metaclass=_CountingMeta):
+    pass
+
+
 NT = collections.namedtuple("NT", "a b")
 
 
@@ -68,4 +79,4 @@ class K:
         pass
 
 
-CLASSES = [Base, D1, D2, DD, Other, Mixed, Outer.Inner, Outer.Inner.Deep]
+CLASSES = [Base, D1, D2, DD, Other, Mixed, Outer.Inner, Outer.Inner.Deep, Registry]
